@@ -181,6 +181,8 @@ def build(case):
         A.elf_dynamic_init.set(m, B.blocks[case["init"]])
     if case.get("fini") is not None:
         A.elf_dynamic_fini.set(m, B.blocks[case["fini"]])
+    if case.get("empty_alignment_table"):
+        A.alignment.get_or_insert(m)        # the table exists, possibly without entries
     if case.get("no_addr"):
         # a module that has not been laid out: no byte interval has an address
         for bi in m.byte_intervals:
